@@ -106,8 +106,11 @@ fn gen_sampling_mesh(rng: &mut Rng, max_faces: usize) -> (String, M) {
                 let n = 1 + rng.below(8);
                 let mut v = Vec::new();
                 let mut f = Vec::new();
+                // sometimes one face (never the last one) is microscopic but perfectly valid: side
+                // 1e-6, area 5e-13 - a sliver from a tessellator, or a mesh in very small units
+                let micro = if n >= 2 && rng.chance(0.35) { Some(rng.below(n - 1)) } else { None };
                 for i in 0..n {
-                    let s = rng.log_uniform(0.01, 1.0);
+                    let s = if micro == Some(i) { 1e-6 } else { rng.log_uniform(0.01, 1.0) };
                     let o = [i as f64 * 2.0, rng.uniform(-1.0, 1.0), rng.uniform(-1.0, 1.0)];
                     let thin = if rng.chance(0.4) { rng.log_uniform(0.01, 0.3) } else { 1.0 };
                     let b = v.len() as u32;
@@ -139,8 +142,26 @@ fn gen_sampling_mesh(rng: &mut Rng, max_faces: usize) -> (String, M) {
             shuffle_faces(rng, &mut m);
             rotate_triples(rng, &mut m);
         }
+        // the length unit is arbitrary (bounded below so that every face keeps an area above
+        // 1e-13; parry treats a cross product below f64::EPSILON as "no normal")
+        let min_area = (0..m.f.len()).map(|i| m.area(i)).fold(f64::INFINITY, f64::min);
+        let mut label = label;
+        if rng.chance(0.3) && min_area > 0.0 {
+            let lowest = (1e-13 / min_area).sqrt().max(1e-5);
+            let sc = rng.log_uniform(lowest, lowest.max(1e4));
+            for p in m.v.iter_mut() {
+                *p = scale(*p, sc);
+            }
+            label.push_str("+scaled");
+        }
         let s = m.size();
-        if (0..m.f.len()).all(|i| m.area(i) > 1e-7 * s * s) {
+        // no face may be degenerate by parry's standard; thin-but-valid faces are wanted
+        if (0..m.f.len()).all(|i| {
+            let t = m.tri(i);
+            let (e1, e2) = (sub(t[1], t[0]), sub(t[2], t[0]));
+            m.area(i) > 1e-13 && norm(cross(e1, e2)) > 1e-4 * norm(e1) * norm(e2)
+        }) && s.is_finite()
+        {
             return (label, m);
         }
     }
@@ -217,6 +238,12 @@ fn gen_points(rng: &mut Rng, tier: Tier) -> Sc {
     }
     rng.shuffle(&mut pts);
     let n = pts.len();
+    // the length unit is arbitrary (power of two: lattice ties stay exact)
+    let unit_scale = if rng.chance(0.3) { 2f64.powi(rng.range(-20, 20) as i32) } else { 1.0 };
+    for p in pts.iter_mut() {
+        *p = [p[0] * unit_scale, p[1] * unit_scale, p[2] * unit_scale];
+    }
+    let spacing = spacing * unit_scale;
     // working indices: all or a subset, in a simulator-chosen visiting order
     let mut order: Vec<usize> = if rng.chance(0.7) { (0..n).collect() } else { (0..n).filter(|_| rng.chance(0.6)).collect() };
     if order.is_empty() {
